@@ -663,7 +663,7 @@ class BzrUploader:
                     self.upload_file(change.path[1], change.path[1])
                 elif change.kind[1] == "symlink":
                     target = self.tree.get_symlink_target(change.path[1])
-                    self.upload_symlink(change.path[1], target)
+                    self.upload_symlink_robustly(change.path[1], target)
                 elif change.kind[1] == "directory":
                     self.make_remote_dir(change.path[1])
                 else:
@@ -683,7 +683,7 @@ class BzrUploader:
                 elif change.kind[1] == "symlink":
                     target = self.tree.get_symlink_target(change.path[1])
                     try:
-                        self.upload_symlink(change.path[1], target)
+                        self.upload_symlink_robustly(change.path[1], target)
                     except transport_errors.TransportNotPossible:
                         if not self.quiet:
                             self.outf.write(
@@ -702,7 +702,7 @@ class BzrUploader:
                     self.upload_file(change.path[1], change.path[1])
                 elif change.kind[1] == "symlink":
                     target = self.tree.get_symlink_target(change.path[1])
-                    self.upload_symlink(change.path[1], target)
+                    self.upload_symlink_robustly(change.path[1], target)
                 else:
                     raise NotImplementedError
 
